@@ -304,6 +304,7 @@ def _xml_agreement(ctx):
                       "declares no such attribute (declared: %s)"
                       % (where, attr, name, t["file"], sorted(declared)),
                       nontrivial=False)
+    _xml_datatypes(ctx, d)
     run.analysed["xml_section_types"] = sorted(types)
     run.analysed["section_attribute_reads"] = n_reads
 
@@ -373,3 +374,101 @@ def _section_reads(ctx, cq, seen):
 def _verdict(run, rule, fn, construct, r, m):
     from rules.common import verdict
     verdict(run, rule, fn, construct, r, m)
+
+
+LOGFMT = LG + ".formatter.escaped_string"
+# (section type, attribute) -> datatype the factories rely on (from
+# docs/logging-components.rst and the component descriptions)
+XML_DATATYPES = {
+    ("zconfig.logger.base-logger", "level"):
+        LG + ".datatypes.logging_level",
+    ("zconfig.logger.base-log-handler", "level"):
+        LG + ".datatypes.logging_level",
+    ("zconfig.logger.base-log-handler", "style"):
+        LG + ".formatter.log_format_style",
+    ("zconfig.logger.base-log-handler", "arbitrary_fields"): "boolean",
+    ("zconfig.logger.base-log-handler", "formatter"): "dotted-name",
+    ("logfile", "old_files"): "integer",
+    ("logfile", "max_size"): "byte-size",
+    ("logfile", "interval"): "integer",
+    ("logfile", "delay"): "boolean",
+    ("logfile", "format"): LOGFMT,
+    ("syslog", "facility"): LG + ".handlers.syslog_facility",
+    ("syslog", "address"): "socket-address",
+    ("syslog", "format"): LOGFMT,
+    ("win32-eventlog", "format"): LOGFMT,
+    ("http-logger", "url"): LG + ".handlers.http_handler_url",
+    ("http-logger", "method"): LG + ".handlers.get_or_post",
+    ("http-logger", "format"): LOGFMT,
+    ("email-notifier", "smtp_server"): "inet-address",
+    ("email-notifier", "format"): LOGFMT,
+    ("logger", "propagate"): "boolean",
+    ("logger", "name"): "dotted-name",
+}
+XML_IMPLEMENTS = {
+    "logfile": "zconfig.logger.handler", "syslog": "zconfig.logger.handler",
+    "win32-eventlog": "zconfig.logger.handler",
+    "http-logger": "zconfig.logger.handler",
+    "email-notifier": "zconfig.logger.handler",
+    "logger": "zconfig.logger.log", "eventlog": "zconfig.logger.log",
+}
+
+
+def _xml_datatypes(ctx, d):
+    run, m = ctx.run, ctx.model
+    from rules.c09 import stock_table
+    _, stock = stock_table(ctx)
+    seen = {}
+    impl = {}
+    multis = {}
+    for fn in sorted(os.listdir(d)):
+        if not fn.endswith(".xml"):
+            continue
+        root = ET.parse(os.path.join(d, fn)).getroot()
+        prefix = root.get("prefix", "")
+        for st in root.iter("sectiontype"):
+            tname = st.get("name").lower()
+            if st.get("implements"):
+                impl[tname] = st.get("implements").lower()
+            for ch in st:
+                if ch.tag not in ("key", "multikey", "section",
+                                  "multisection"):
+                    continue
+                a = _attr_name(ch)
+                dt = ch.get("datatype")
+                if dt and dt.startswith("."):
+                    dt = prefix + dt
+                if ch.tag == "multisection":
+                    multis[(tname, a)] = (ch.get("type") or "").lower()
+                seen[(tname, a)] = dt
+                if dt is None:
+                    continue
+                ok = dt in stock or dt in m.functions or dt in m.classes
+                run.check(ok, "C20.R2", "%s <sectiontype %s>" % (fn, tname),
+                          "datatype of %s: %s" % (a, dt),
+                          "names a stock datatype or a repository callable",
+                          "key %s of <%s> in %s names the datatype %s, which "
+                          "is neither a stock datatype nor a callable of the "
+                          "repository" % (a, tname, fn, dt),
+                          nontrivial=False)
+    for (t, a), want in sorted(XML_DATATYPES.items()):
+        got = seen.get((t, a), "<missing>")
+        run.check(got == want, "C20.R2", "<sectiontype %s>" % t,
+                  "%s is converted by %s" % (a, want),
+                  "declared with the datatype its factory relies on",
+                  "key %s of <%s> is declared with datatype %s; the factory "
+                  "relies on %s" % (a, t, got, want), nontrivial=False)
+    for t, want in sorted(XML_IMPLEMENTS.items()):
+        run.check(impl.get(t) == want, "C20.R2", "<sectiontype %s>" % t,
+                  "implements " + want, "registered under the abstract type "
+                  "its container slot uses",
+                  "<%s> implements %s, expected %s" % (t, impl.get(t), want),
+                  nontrivial=False)
+    run.check(multis.get(("zconfig.logger.base-logger", "handlers"))
+              == "zconfig.logger.handler", "C20.R2",
+              "<sectiontype zconfig.logger.base-logger>",
+              "handlers: multisection of the abstract handler type",
+              "one handler factory per handler section, in order",
+              "the handlers slot is %s" % multis.get(
+                  ("zconfig.logger.base-logger", "handlers")),
+              nontrivial=False)
